@@ -10,6 +10,8 @@ Abstract netlist
           'ports': [label, ...],                    order of ports in io_nodes ('i<k>' / 'o<k>')
           'rev': bool,                              create gate nodes in reverse order
           'strev': bool,                            create the state elements in reverse order (order in s_nodes)
+          'peek': bool,                             the interface (s_nodes, stats) is read before the port list is put into its final order in place
+          'pdeep': bool,                            style 'forks' with wiring 'L': the output port is the deepest fork of the chain, not the stem fork
           'frev': bool}                             create the forks of a chain and their fan-out lines before the forks and lines feeding them
     sources: 'i<k>', 's<k>' (true output of state element k), 'n<k>' (inverted output of flip-flop k), 'g<k>'.
 """
@@ -80,7 +82,7 @@ def netlists(draw, **kw):
                            min_size=nst, max_size=nst))
     raw_po = draw(st.lists(st.integers(0, 1 << 16), min_size=0, max_size=cfg['po_taps']))
     raw_w = draw(st.integers(0, (1 << 62)))
-    rev = draw(st.sampled_from(list(range(8))))      # bit 0: gate nodes created in reverse order, bit 1: fork chains created downstream first, bit 2: state elements created last one first
+    rev = draw(st.sampled_from(list(range(32))))      # bit 0: gate nodes created in reverse order, bit 1: fork chains created downstream first, bit 2: state elements created last one first, bit 3: interface read before the ports get their final order, bit 4: bench-style output ports sit at the end of their fork chain
     port_perm = draw(st.integers(0, 1 << 30))
     return make_netlist(npi, style, raw_g, raw_st, raw_po, raw_w, rev, port_perm, cfg)
 
@@ -120,7 +122,7 @@ def make_netlist(npi, style, raw_g, raw_st, raw_po, raw_w, rev, port_perm, cfg):
             states[k]['d'] = f's{(k + 1 + (rd >> 2) % (len(states) - 1)) % len(states)}'
         if cfg['clock_pins'] and fl & 16:
             states[k]['c'] = every[rc % len(every)]
-    nl = dict(pi=npi, st=states, g=gates, po=[], style=style, w={}, ports=[], rev=bool(rev & 1), frev=bool(rev & 2), strev=bool(rev & 4))
+    nl = dict(pi=npi, st=states, g=gates, po=[], style=style, w={}, ports=[], rev=bool(rev & 1), frev=bool(rev & 2), strev=bool(rev & 4), peek=bool(rev & 8), pdeep=bool(rev & 16))
     # outputs
     allsig = [s for s in avail]
     po = []
